@@ -577,6 +577,7 @@ var Prop = &harness.Prop{
 			}
 		}
 		u = append(u, serverHelloSweepUnit(true), serverHelloSweepUnit(false))
+		u = append(u, refUnits()...)
 		return u
 	},
 }
